@@ -49,21 +49,26 @@ def _conv(spec):
     return kw
 
 
-def mk_reward(spec):
+def mk_reward(spec, via_factory=False):
+    """the built-in reward with the given parameters: bound directly on the registry function, or obtained by name through factory()"""
     kw = _conv(spec)
     if 'reward_functions' in kw:
-        kw['reward_functions'] = [mk_reward(s) for s in kw['reward_functions']]
+        kw['reward_functions'] = [mk_reward(s, via_factory) for s in kw['reward_functions']]
+    if via_factory:
+        return reward_fs.factory(spec['name'], **kw)
     return functools.partial(reward_fs.reward_function_registry[spec['name']], **kw)
 
 
-def mk_rewards(specs):
-    return mk_reward({'name': 'reduce_sum', 'reward_functions': specs})
+def mk_rewards(specs, via_factory=False):
+    return mk_reward({'name': 'reduce_sum', 'reward_functions': specs}, via_factory)
 
 
-def mk_term(spec):
+def mk_term(spec, via_factory=False):
     kw = _conv(spec)
     if 'terminating_functions' in kw:
-        kw['terminating_functions'] = [mk_term(s) for s in kw['terminating_functions']]
+        kw['terminating_functions'] = [mk_term(s, via_factory) for s in kw['terminating_functions']]
+    if via_factory:
+        return term_fs.factory(spec['name'], **kw)
     return functools.partial(term_fs.terminating_function_registry[spec['name']], **kw)
 
 
@@ -90,7 +95,7 @@ def mk_env(space, shape, comp, reset_state=None):
     return GridWorld(
         st_space, ActionSpace(actions), ob_space, reset,
         mk_transition(comp['chain']), mk_obs(comp['obs'], gen.view_area(vh, vw)),
-        mk_rewards(comp['rewards']), mk_term(comp['term']),
+        mk_rewards(comp['rewards'], comp.get('via_factory', False)), mk_term(comp['term'], comp.get('via_factory', False)),
     )
 
 
